@@ -27,6 +27,8 @@ def run(rep, tier):
     H.r_evt_sort(rep, hc)
     rep.rule("R-EVT-PAIR", "every evaluation of the event functions in the handler is made at a consistent (time, state) pair: (x, y) or (t, interpolant(t)) for the same t")
     H.r_evt_eval_pair(rep, hc)
+    rep.rule("R-EVT-CURR", "the buffer holding the event values at the step end is not overwritten (by an evaluation at another point, or element-wise) before every per-event read of the current value and the copy into prev_event")
+    H.r_evt_curr_stable(rep, hc)
     acc_rule(rep, f, rule="R-SOLOUT-ONCE")
     rep.explanation = ("Largely decided structurally: complete truth table of the sign-change test, previous-value bookkeeping on all paths, "
                        "exactly one record per crossing per step, every accepted step reaches the handler once. Not decided: root location accuracy.")
